@@ -635,6 +635,67 @@ func c06ResourceBody(x *mc.Exec, order bool) {
 	}
 }
 
+// c06TwoSchemas: the declared kind is the one of the schema given to THIS call:
+// two schemas declare a same-named type with the same field names and other
+// kinds / cardinalities; payloads are unmarshaled against them alternately.
+func c06TwoSchemas(x *mc.Exec) {
+	kinds := []Kind{kStr, kInt, {j.AttrTypeInt8, false}, kPInt, kBool, {j.AttrTypeUint64, false}}
+	k1 := kinds[x.Choose(len(kinds), "kind in schema 1")]
+	k2 := kinds[x.Choose(len(kinds), "kind in schema 2")]
+	soft1, soft2 := x.Bool("schema 1 soft"), x.Bool("schema 2 soft")
+	lit := func(k Kind) (string, any) {
+		switch k.Type {
+		case j.AttrTypeString:
+			return `"200"`, "200"
+		case j.AttrTypeBool:
+			return "true", true
+		case j.AttrTypeInt8:
+			return "100", int8(100)
+		case j.AttrTypeUint64:
+			return "200", uint64(200)
+		}
+		if k.Nullable {
+			return "200", Ptr(int(200))
+		}
+		return "200", int(200)
+	}
+	mk := func(k Kind, soft bool, toOne bool) *j.Schema {
+		d := TypeD{Name: "t", Attrs: []AttrD{{"code", k}}, Rels: []RelD{{"rel", toOne, "t", ""}}}
+		return BuildSchema([]TypeD{d}, []bool{soft})
+	}
+	s1, s2 := mk(k1, soft1, true), mk(k2, soft2, false)
+	desc := fmt.Sprintf("t.code is %s (%s) in schema 1 and %s (%s) in schema 2", k1, implName(soft1), k2, implName(soft2))
+	x.Render(desc)
+	x.R.Mark("nontrivial", mc.Hash(desc))
+	for _, which := range []int{1, 2, 1, 2} {
+		s, k, toOne := s1, k1, true
+		if which == 2 {
+			s, k, toOne = s2, k2, false
+		}
+		l, den := lit(k)
+		data, wantRel := `{"type":"t","id":"a"}`, any("a")
+		if !toOne {
+			data, wantRel = `[{"type":"t","id":"a"}]`, any([]string{"a"})
+		}
+		payload := `{"type":"t","id":"1","attributes":{"code":` + l + `},"relationships":{"rel":{"data":` + data + `}}}`
+		var r j.Resource
+		var err error
+		if p := Try(func() { r, err = j.UnmarshalResource([]byte(payload), s) }); p != "" || err != nil || r == nil {
+			x.Fail("C06:two-schemas:rejected", "%s: schema %d rejects %s: panic %q err %v", desc, which, payload, p, err)
+			return
+		}
+		x.R.Add("transitions", 1)
+		if !SameAttrValue(r.Get("code"), den) || reflect.TypeOf(r.Get("code")) != k.GoType() {
+			x.Fail("C06:two-schemas:value", "%s: against schema %d code is %s, the payload denotes %s", desc, which, ShowVal(r.Get("code")), ShowVal(den))
+			return
+		}
+		if !reflect.DeepEqual(r.Get("rel"), wantRel) {
+			x.Fail("C06:two-schemas:rel", "%s: against schema %d rel is %v, the payload lists %v", desc, which, r.Get("rel"), wantRel)
+			return
+		}
+	}
+}
+
 // c06Collection: every member of a collection payload must be read as if it
 // were alone (fields absent from ITS object hold their zero value, whatever the
 // members before it carried).
@@ -707,6 +768,7 @@ func init() {
 			{Name: "C06/other", Body: c06Other, ShardDepth: 1},
 			{Name: "C06/resource", Body: c06Resource},
 			{Name: "C06/collection", Body: c06Collection},
+			{Name: "C06/two-schemas", Body: c06TwoSchemas},
 			{Name: "C06/resource-member-order", Body: c06ResourceOrder, Dev: func() int { return 1 }},
 		},
 	})
